@@ -471,6 +471,12 @@ class Intervals:
                 # CFG order: the inc/dec element has been applied before its parent is evaluated
                 d = 1 if e["op"] == "++" else -1
                 return (k, -d if e.get("postfix") else 0)
+        if e.get("k") == "BinaryOperator" and e.get("op") == "*":
+            # a multiple of something known to be zero
+            for x, y in ((e["c"][0], e["c"][1]), (e["c"][1], e["c"][0])):
+                kx = self.key_of(strip_casts(x))
+                if kx is not None and kx in self.zero_keys and const_of(y) is not None:
+                    return (None, 0)
         if e.get("k") == "BinaryOperator" and e.get("op") in ("+", "-"):
             a, b = self._linear(e["c"][0]), self._linear(e["c"][1])
             if a is not None and a[0] in self.zero_keys:
@@ -818,6 +824,28 @@ class Intervals:
                 st[ka] = na
             if kb is not None:
                 st[kb] = nb
+            # what was learnt about a variable carries over to the variables it is tied to by difference bounds
+            # (y - x <= c gives y <= hi(x) + c, x - y <= c' gives y >= lo(x) - c')
+            for kx in (ka, kb):
+                if kx is None or st.get(kx) is None:
+                    continue
+                xlo, xhi = st[kx]
+                for key2, cval in list(st.items()):
+                    if not (isinstance(key2, tuple) and len(key2) == 3 and key2[0] == "rel") or cval is None:
+                        continue
+                    _, p_, q_ = key2            # p_ - q_ <= cval
+                    if q_ == kx and p_ != kx and xhi is not None:
+                        old = st.get(p_)
+                        if old is not None and (old[1] is None or old[1] > xhi + cval):
+                            st[p_] = (old[0], xhi + cval)
+                            if old[0] is not None and old[0] > xhi + cval:
+                                return None
+                    if p_ == kx and q_ != kx and xlo is not None:
+                        old = st.get(q_)
+                        if old is not None and (old[0] is None or old[0] < xlo - cval):
+                            st[q_] = (xlo - cval, old[1])
+                            if old[1] is not None and old[1] < xlo - cval:
+                                return None
             # (x + a) op c  with x + a not wrapping in the type of the comparison: refine x against c - a
             for lx, lc, flip in ((la, lb, False), (lb, la, True)):
                 if lx is not None and lc is not None and lx[0] is not None and lx[1] != 0 and lc[0] is None and lx[0] not in self.zero_keys:
